@@ -181,7 +181,12 @@ def max_shim(*args, **kw):
     best = args[0]
     for a in args[1:]:
         c = a > best
-        best = _ite(c, a, best) if not isinstance(c, bool) else (a if c else best)
+        if isinstance(c, bool):
+            best = a if c else best
+        elif isinstance(a, float) and a != a or isinstance(best, float) and best != best:
+            best = best          # NaN operand: every comparison is False (CPython keeps the first)
+        else:
+            best = _ite(c, a, best)
     return best
 
 
@@ -199,6 +204,8 @@ def min_shim(*args, **kw):
 
 
 def _minmax_fallback(fn, args, kw):
+    if len(args) == 1 and not kw:
+        return args[0]
     # +-inf operands: drop them when a finite symbolic operand decides
     fin = [a for a in args if not (isinstance(a, float) and _math.isinf(a))]
     if len(fin) != len(args) and builtins.any(_numeric_sym(a) for a in fin) and not kw:
